@@ -8,3 +8,4 @@ import KojenVerif.Props.C16
 #print axioms KojenVerif.C16.C16_letter_cycle
 #print axioms KojenVerif.C16.C16_blank_lines
 #print axioms KojenVerif.C16.C16_tab_filter
+#print axioms KojenVerif.C16.C16_action_signature_block
